@@ -18,7 +18,7 @@ func init() { registry["C20"] = propC20 }
 func propC20() *Property {
 	return &Property{
 		ID:          "C20",
-		Explanation: "Static shape, guard and identity-flow rules on the media hook. Decided: (R1) the only process-spawning call sites in the module are exec.Command and the Cmd's run method in ui.openExternally, and the program is not a constant shell; (R2) the argv handed to exec.Command is element 0 / the tail of a slice freshly made with the configured hook's length and filled by copy from config.Parsed.Media.Hook, which is itself never written; (R3) every other write into that slice is at an index known to be non-zero, on the equality edge of the element itself against a constant placeholder, and stores — by identity, no string operation in between — the link parameter for %url and the Essence/Supertype/Subtype field of the media type for %mimetype/%supertype/%subtype; the placeholder constants are exactly those documented in readme.md; (R4) Stdin is set only when no %url placeholder was substituted and then to a reader over the link itself; (R5) the media type is non-nil at every call of openExternally (every producer of a (link, type, true) triple returns a non-nil type). (R6) the only store into Media.Hook anywhere in the module is the default literal of constants that the decoder overwrites. Not decided: what the operating system does with argv; the link's own content (deliberately verbatim).",
+		Explanation: "Static shape, guard and identity-flow rules on the media hook. Decided: (R1) the only process-spawning call sites in the module are exec.Command and the Cmd's run method in ui.openExternally, and the program is not a constant shell; (R2) the argv handed to exec.Command is element 0 / the tail of a slice freshly made with the configured hook's length and filled by copy from config.Parsed.Media.Hook, which is itself never written; (R3) every other write into that slice is at an index known to be non-zero, on the equality edge of the element itself against a constant placeholder, and stores — by identity, no string operation in between — the link parameter for %url and the Essence/Supertype/Subtype field of the media type for %mimetype/%supertype/%subtype; the placeholder constants are exactly those documented in readme.md; (R4) Stdin is set only when no %url placeholder was substituted and then to a reader over the link itself; (R5) the media type is non-nil at every call of openExternally (every producer of a (link, type, true) triple returns a non-nil type). (R6) the only store into Media.Hook anywhere in the module is the default literal of constants that the decoder overwrites. (R7) fields of mime.MediaType values are written in package mime only, so the %mimetype, %supertype and %subtype handed to the hook describe one type. Not decided: what the operating system does with argv; the link's own content (deliberately verbatim).",
 		Assumptions: []string{
 			"os/exec.Command passes its arguments to execve without interpretation",
 			"readme.md's 'Media Hook' section is the documentation of the placeholders",
@@ -30,6 +30,7 @@ func propC20() *Property {
 			{ID: "C20.R4", Title: "stdin fallback only without %url, carrying the link", Floor: 1, Run: c20R4},
 			{ID: "C20.R5", Title: "media type is non-nil at every external open", Floor: 2, Run: c20R5},
 			{ID: "C20.R6", Title: "the configured hook is not rewritten between the configuration file and the hook", Floor: 1, Run: c20R6},
+			{ID: "C20.R7", Title: "media types are made by package mime and never patched", Floor: 1, Run: c20R7},
 		},
 	}
 }
@@ -344,6 +345,9 @@ func c20R3(c *Ctx) {
 					nz = true
 				}
 			}
+			if !nz && countsFromAtLeast(ia.Index, 1) {
+				nz = true // an index that starts at 1 (or later) and only grows
+			}
 			c.check(nz, fname+"/subst:index-nonzero", pos, fname, "the substituted index is known to be non-zero", "an argv element is overwritten at an index that may be 0: the program name can be substituted")
 			// (ii) exact equality of the element itself against a constant
 			var consts []string
@@ -444,10 +448,30 @@ func c20R4(c *Ctx) {
 					continue
 				}
 				good, sawTrue := true, false
-				for k, ed := range ph.Edges {
-					if unwrapLoad(ed) == ssa.Value(ph) {
-						continue
+				// the constant edges of the flag, through merge phis (a for.post block merges the arms of the switch)
+				type flagEdge struct {
+					val  ssa.Value
+					pred *ssa.BasicBlock
+				}
+				var flat []flagEdge
+				seenPhi := map[*ssa.Phi]bool{}
+				var flatten func(p *ssa.Phi)
+				flatten = func(p *ssa.Phi) {
+					if seenPhi[p] {
+						return
 					}
+					seenPhi[p] = true
+					for k, ed := range p.Edges {
+						if inner, isPhi := unwrapLoad(ed).(*ssa.Phi); isPhi {
+							flatten(inner)
+							continue
+						}
+						flat = append(flat, flagEdge{ed, p.Block().Preds[k]})
+					}
+				}
+				flatten(ph)
+				for _, fe := range flat {
+					ed := fe.val
 					cst, ok := ed.(*ssa.Const)
 					if !ok || cst.Value == nil {
 						good = false
@@ -455,7 +479,7 @@ func c20R4(c *Ctx) {
 					}
 					if cst.Value.String() == "true" {
 						sawTrue = true
-						pred := ph.Block().Preds[k]
+						pred := fe.pred
 						isURL := false
 						for _, pf := range bft.At(pred) {
 							if cmp, ok := pf.Cmp(); ok && cmp.Op == token.EQL {
@@ -656,4 +680,30 @@ func c20R6(c *Ctx) {
 		})
 	}
 	c.check(n >= 1, "servitor/config/hook-stores", "config", "servitor/config", fmt.Sprintf("%d stores into Media.Hook", n), "no default hook is set any more (informational)")
+}
+
+// countsFromAtLeast: v is a loop counter — a phi whose edges from outside are
+// constants >= k and whose other edges are the phi itself plus a positive
+// constant.
+func countsFromAtLeast(v ssa.Value, k int64) bool {
+	ph, ok := v.(*ssa.Phi)
+	if !ok {
+		return false
+	}
+	for _, e := range ph.Edges {
+		if c0, isC := constInt(e); isC {
+			if c0 < k {
+				return false
+			}
+			continue
+		}
+		bo, ok := e.(*ssa.BinOp)
+		if !ok || bo.Op != token.ADD || bo.X != ssa.Value(ph) {
+			return false
+		}
+		if step, isC := constInt(bo.Y); !isC || step < 1 {
+			return false
+		}
+	}
+	return true
 }
